@@ -598,9 +598,10 @@ impl<F: Read + Seek> CompoundFile<F> {
         {
             fat.pop();
         }
-        while fat.len() < num_sectors as usize {
-            fat.push(consts::FREE_SECTOR);
-        }
+        // Sectors beyond what the FAT sectors cover have no FAT entry in the
+        // file, so they cannot be tracked as free sectors (there is nowhere to
+        // record their allocation); they are simply overwritten if the file
+        // grows.
 
         let mut allocator =
             Allocator::new(sectors, difat_sector_ids, difat, fat, validation)?;
